@@ -4,19 +4,37 @@ package main
 // generator of the property; every case is in the domain, so the model decides unless an expectation is given.
 
 import (
+	"encoding/json"
+	"errors"
+	"fmt"
+	"math"
+	"reflect"
 	"strings"
+
+	"github.com/machship/mpath"
 
 	"github.com/shopspring/decimal"
 )
 
 func round6(c *Ctx) {
 	switch c.Prop {
-	case "C07", "C10", "C11":
+	case "C07", "C10":
 		r6AsJSON(c)
+	case "C05":
+		r6NumbersKeptAsText(c)
+		r6HugeUnsigned(c)
 	case "C17":
 		r6KeysThatFoldTogetherAcrossElements(c)
 	case "C19":
 		r6NilThenSetStructPointers(c)
+		r6AllZeroStructs(c)
+		r6PaddedZeroNumerals(c)
+	case "C02", "C03":
+		r6NullElementsUnderFilters(c)
+	case "C11":
+		r6AsJSON(c)
+		r6ObjectValuedArguments(c)
+		r6AsJSONAfterFailure(c)
 	}
 }
 
@@ -106,3 +124,218 @@ func r6NilThenSetStructPointers(c *Ctx) {
 		}
 	}
 }
+
+// a number kept as text on the left of a comparison ("10", "10.0", "1e1", a named string): the seven relations answer as for the number,
+// coherently, whatever holds the other side
+func r6NumbersKeptAsText(c *Ctx) {
+	grid := []string{"10", "10.0", "1e1", "0", "0.0", "-1", "2.5", "2.50", "0.1", "999999999999999"}
+	for _, as := range grid {
+		a := c04Parse(as)
+		for _, bs := range []string{"10", "10.0", "0", "2.5", "-1", "0.1", "999999999999998", "1e1"} {
+			b := c04Parse(bs)
+			for _, named := range []bool{false, true} {
+				av := c05Var{name: "text", tv: tvStr(as)}
+				if named {
+					av = c05Var{name: "named-text", tv: tvNStr(as)}
+				}
+				for _, bv := range []c05Var{{name: "literal:plain", tv: tvNil(), arg: b.lit(0)}, {name: "path:dec", tv: c04Carry(b, "dec"), arg: "$.b"}, {name: "path:f64", tv: c04Carry(b, "f64"), arg: "$.b"}} {
+					if bv.tv == nil {
+						continue
+					}
+					c05Combo(c, a, b, av, bv, "round6/numbers-kept-as-text", nil)
+				}
+			}
+		}
+	}
+}
+
+// whole numbers that only an unsigned 64-bit kind holds (above the largest int64), in Go's `uint`, in uint64 and as decimals, on either side
+func r6HugeUnsigned(c *Ctx) {
+	vals := []string{"9223372036854775807", "9223372036854775808", "9223372036854775809", "9300000000000000000", "18446744073709551614", "18446744073709551615", "10000000000000000000"}
+	for _, as := range vals {
+		a := c04Parse(as)
+		for _, bs := range append([]string{"0", "-1", "1"}, vals...) {
+			b := c04Parse(bs)
+			for _, ak := range []string{"uint", "uint64", "dec", "ptr-uint", "named-uint-wide"} {
+				var atv *TV
+				switch ak {
+				case "ptr-uint":
+					if t := c04Carry(a, "uint"); t != nil {
+						atv = tvPtr(t)
+					}
+				case "named-uint-wide":
+					if t := c04Carry(a, "uint"); t != nil {
+						t.N = 1
+						atv = t
+					}
+				default:
+					atv = c04Carry(a, ak)
+				}
+				if atv == nil {
+					continue
+				}
+				// (a literal of 19 digits is read through float64 and is not the number that was written: the property speaks of literals
+				// of up to 15 significant digits, so the other side is always a path here)
+				var bvs []c05Var
+				for _, bk := range []string{"uint", "uint64", "dec"} {
+					if t := c04Carry(b, bk); t != nil {
+						bvs = append(bvs, c05Var{name: "path:" + bk, tv: t, arg: "$.b"})
+					}
+				}
+				for _, bv := range bvs {
+					c05Combo(c, a, b, c05Var{name: ak, tv: atv}, bv, "round6/huge-unsigned", nil)
+				}
+			}
+		}
+	}
+}
+
+// lists that hold null entries (JSON null, nil pointers) under filters whose body is true on null
+func r6NullElementsUnderFilters(c *Ctx) {
+	docs := []*TV{
+		tvMap("str", [][2]any{kv("list", tvSlice(1, tvF64(1), tvNil(), tvF64(5))), kv("rows", tvSlice(1, tvMap("str", [][2]any{kv("a", tvF64(1))}), tvNil(), tvMap("str", [][2]any{kv("a", tvNil())})))}),
+		tvMap("str", [][2]any{kv("list", tvSlice(0, tvPtr(tvInt("int", "1")), tvNilPtr(tvInt("int", "0")), tvPtr(tvInt("int", "5")))), kv("rows", tvSlice(1, tvNil(), tvNil()))}),
+		tvStruct([][3]any{{"List", 1, tvSlice(1, tvNil(), tvStr("x"))}, {"Rows", 1, tvSlice(0, tvNilPtr(tvStruct([][3]any{{"A", 1, tvInt("int", "0")}})), tvPtr(tvStruct([][3]any{{"A", 1, tvInt("int", "2")}})))}}),
+	}
+	qs := []string{"$.list[@.IsNull()]", "$.list[OR,@.IsNull(),@.IsNotNull()]", "$.list[]", "$.list[@.IsNotNull()]", "$.list[{@.IsNull()}].Count()", "$.list[AND,{OR,@.IsNull(),@.IsNotNull()}].Count()", "$.list[OR].Count()",
+		"$.rows[@.IsNull()].Count()", "$.rows[OR,@.IsNull(),@.a?.IsNull()].Count()", "$.rows[@.IsNullOrEmpty()].Count()", "$.list[@.IsNull()][@.IsNull()].Count()", "$.list[{AND}].Count()", "$.rows[]"}
+	for _, d := range docs {
+		for _, q := range qs {
+			c.Do(Case{Q: q, D: d, Cls: "round6/null-elements-under-filters", InDomain: true})
+		}
+	}
+}
+
+// objects carried by structs whose fields are all zero or nil: the keys are there (null, "", 0), not absent
+func r6AllZeroStructs(c *Ctx) {
+	inner := func() *TV {
+		return tvStruct([][3]any{{"B", 2, tvNil()}, {"S", 1, tvStr("")}, {"N", 1, tvInt("int", "0")}, {"P", 1, tvNilPtr(tvStr("x"))}})
+	}
+	docs := []*TV{
+		tvStruct([][3]any{{"A", 1, tvPtr(inner())}}),
+		tvStruct([][3]any{{"A", 1, inner()}}),
+		inner(),
+		tvPtr(inner()),
+		tvMap("str", [][2]any{kv("a", inner()), kv("rows", tvSlice(0, inner(), inner()))}),
+		tvStruct([][3]any{{"A", 1, inner()}, {"Rows", 1, tvSlice(1, inner(), tvPtr(inner()))}}),
+	}
+	preds := []string{"IsNull()", "IsNotNull()", "IsEmpty()", "IsNotEmpty()", "IsNullOrEmpty()", "IsNotNullOrEmpty()"}
+	for _, d := range docs {
+		for _, path := range []string{"$.a.b", "$.a.s", "$.a.n", "$.a.p", "$.a.b?", "$.a.s?", "$.a.zz?", "$.b", "$.s", "$.n", "$.b?", "$.a?.b?", "$.rows.n", "$.rows.First().s", "$.a"} {
+			for _, pr := range preds {
+				c.Do(Case{Q: path + "." + pr, D: d, Cls: "round6/all-zero-structs", InDomain: true})
+			}
+			c.Do(Case{Q: path, D: d, Cls: "round6/all-zero-structs", InDomain: true})
+		}
+		c.Do(Case{Q: "$.rows[@.s.IsEmpty()].Count()", D: d, Cls: "round6/all-zero-structs", InDomain: true})
+		c.Do(Case{Q: "$.rows.n.Count()", D: d, Cls: "round6/all-zero-structs", InDomain: true})
+	}
+}
+
+// texts that are not empty and not numerals, but would read as zero if their blanks were cut off
+func r6PaddedZeroNumerals(c *Ctx) {
+	preds := []string{"IsNull()", "IsNotNull()", "IsEmpty()", "IsNotEmpty()", "IsNullOrEmpty()", "IsNotNullOrEmpty()"}
+	for _, v := range []string{" 0", "0 ", " 0.00 ", "\t0\n", "  -0", " 0e0 ", "0\u00a0", " ", "  ", " 1", "0 0", "\n"} {
+		docs := []*TV{tvMap("str", [][2]any{kv("v", tvStr(v))}), tvStruct([][3]any{{"V", 1, tvStr(v)}}), tvMap("str", [][2]any{kv("v", tvPtr(tvStr(v)))}), tvMap("str", [][2]any{kv("v", tvNStr(v))})}
+		for _, d := range docs {
+			for _, pr := range preds {
+				c.Do(Case{Q: "$.v." + pr, D: d, Cls: "round6/padded-zero-numerals", InDomain: true})
+				c.Do(Case{Q: "$.v?." + pr, D: d, Cls: "round6/padded-zero-numerals", InDomain: true})
+			}
+		}
+	}
+}
+
+// an argument that is a path to an OBJECT, for functions whose answer depends on the order of their arguments: one answer (or one
+// error), however often the operation is evaluated
+func r6ObjectValuedArguments(c *Ctx) {
+	d := tvMap("str", [][2]any{kv("text", tvStr("from here to there")), kv("swap", tvMap("str", [][2]any{kv("from", tvStr("here")), kv("to", tvStr("there"))})), kv("fmt", tvStr("%v-%v-%v")),
+		kv("three", tvMap("str", [][2]any{kv("a", tvStr("x")), kv("b", tvStr("y")), kv("c", tvStr("z"))})), kv("n", tvF64(3)), kv("nums", tvMap("str", [][2]any{kv("p", tvF64(1)), kv("q", tvF64(2)), kv("r", tvF64(3))})),
+		kv("rec", tvStruct([][3]any{{"From", 1, tvStr("here")}, {"To", 1, tvStr("there")}}))})
+	for _, q := range []string{"$.text.ReplaceAll($.swap)", `$.text.ReplaceRegex($.swap)`, "$.fmt.Sprintf($.three)", "$.text.AnyOf($.swap)", "$.n.Sum($.nums)", "$.n.AnyOf($.nums)", "$.text.ReplaceAll($.rec)", "$.text.Equal($.swap)",
+		"$.text.Contains($.swap)", "$.n.Minimum($.nums)", "$.fmt.Sprintf($.swap,$.three)", "$.text.ReplaceAll($.three)"} {
+		data := buildAny(d)
+		first := runCase(q, data)
+		c.Do(Case{Q: q, D: d, Cls: "round6/object-valued-arguments", InDomain: false})
+		op, err := mpath.ParseString(q)
+		if err != nil || op == nil {
+			continue
+		}
+		for i := 0; i < 120; i++ {
+			var o Outcome
+			if i%2 == 0 {
+				o = runCase(q, data)
+			} else {
+				o = runOp(op, data)
+			}
+			if o.Class != first.Class || o.Msg != first.Msg || (o.Class == "ok" && o.Logical != first.Logical) {
+				c.addViolation(Violation{Kind: "nondeterminism", Query: q, QueryHex: hx(q), Data: d, Expected: trunc(first.Class+" "+first.Logical+" "+first.Msg, 300), Got: trunc(o.Class+" "+o.Logical+" "+o.Msg, 300),
+					Cls: "round6/object-valued-arguments", Why: "the same operation on the same document gives another answer at evaluation " + jsonInt(i+2), Key: "nondet:object-valued-argument:" + lastFunc(q)})
+				break
+			}
+		}
+	}
+}
+
+// an AsJSON that fails (a NaN, a map with keys of any type) between two evaluations of the same operations: their answers, and the
+// printed and marshalled forms of kept operations that hold number literals, stay what they were
+func r6AsJSONAfterFailure(c *Ctx) {
+	good := tvMap("str", [][2]any{kv("n", tvF64(5)), kv("xs", tvSlice(1, tvF64(1.5), tvF64(2))), kv("o", tvMap("str", [][2]any{kv("k", tvF64(7))}))})
+	bads := []*TV{tvMap("str", [][2]any{kv("bad", tvSlice(1, tvF64(1), tvF64(math.NaN())))}), tvMap("str", [][2]any{kv("bad", tvMap("iface", [][2]any{kv("k", tvF64(1))}))}),
+		tvMap("str", [][2]any{kv("bad", tvMap("str", [][2]any{kv("f", &TV{T: "func"})}))})}
+	qs := []string{"$.n.AsJSON()", "$.xs.AsJSON()", "$.o.AsJSON()", "$.AsJSON()", "$.n.Add(5).AsJSON()"}
+	data := buildAny(good)
+	before := map[string]Outcome{}
+	kept := map[string]mpath.Operation{}
+	marsh := map[string]string{}
+	for _, q := range qs {
+		before[q] = runCase(q, data)
+		if op, err := mpath.ParseString(q); err == nil && op != nil {
+			kept[q] = op
+			b, _ := json.Marshal(op)
+			marsh[q] = string(b) + "|" + op.Sprint(0)
+		}
+	}
+	for _, bd := range bads {
+		bdata := buildAny(bd)
+		for _, bq := range []string{"$.bad.AsJSON()", "$.AsJSON()"} {
+			runCase(bq, bdata)
+			c.Do(Case{Q: bq, D: bd, Cls: "round6/asjson-after-failure", InDomain: false})
+		}
+		for _, q := range qs {
+			o := runCase(q, data)
+			f := before[q]
+			if o.Class != f.Class || (o.Class == "ok" && o.Logical != f.Logical) {
+				c.addViolation(Violation{Kind: "history", Query: q, QueryHex: hx(q), Data: good, Expected: trunc(f.Class+" "+f.Logical, 300), Got: trunc(o.Class+" "+o.Logical, 300), Cls: "round6/asjson-after-failure",
+					Why: "after an AsJSON evaluation that failed on another document, this query answers differently than before", Key: "history:asjson-after-failure"})
+			}
+			if op := kept[q]; op != nil {
+				b, _ := json.Marshal(op)
+				if now := string(b) + "|" + op.Sprint(0); now != marsh[q] {
+					c.addViolation(Violation{Kind: "op-changed", Query: q, QueryHex: hx(q), Data: good, Expected: trunc(marsh[q], 300), Got: trunc(now, 300), Cls: "round6/asjson-after-failure",
+						Why: "a kept operation marshals or prints differently after an AsJSON evaluation that failed on another document", Key: "op-changed:asjson-after-failure"})
+				}
+			}
+		}
+	}
+}
+
+// runOp: one evaluation of a kept operation, classified like runCase
+func runOp(op mpath.Operation, data any) (out Outcome) {
+	defer func() {
+		if r := recover(); r != nil {
+			out = Outcome{Class: "PANIC", Msg: fmt.Sprint(r)}
+		}
+	}()
+	res, err := op.Do(data, data)
+	if err != nil {
+		if errors.Is(err, mpath.ErrKeyNotFound) {
+			return Outcome{Class: "KNF", Msg: err.Error()}
+		}
+		return Outcome{Class: "ERR", Msg: err.Error()}
+	}
+	rv := reflect.ValueOf(res)
+	return Outcome{Class: "ok", Exact: canonV(rv), Logical: logicalV(rv)}
+}
+
+func jsonInt(i int) string { return fmt.Sprint(i) }
